@@ -1849,15 +1849,19 @@ fn large_stream(ctx: &mut Ctx) {
             run_op(ctx, &op);
         }
     }
-    // FM: ~1.5 s at 20 001, ~16 s at 70 001, ~30 s at 140 003 vertices (two passes)
-    for (i, &n) in [4097usize, 8193, 16422, 20001, 20001, 65548, 70001, 140003].iter().enumerate() {
+    // FM: the harness build has debug assertions on, and FM then recomputes the edge cut after every
+    // move (quadratic): 1.5-4 s at 20 001 vertices, 17-29 s at 30 011, up to 90 s at 70 001 – so
+    // 24 001 is the largest size used
+    for (i, &n) in [4097usize, 8193, 12301, 16422, 20001, 20001, 20001, 24001].iter().enumerate() {
         let op = large_op("fm", POOLS[i % 4], n, 2, ORDERS[i % 3], ctx.rng.usize(1 << 12), i == 1, ctx.rng.below(1 << 40));
         run_op(ctx, &op);
     }
     // ArcSwap: the row-numbered grid is fast at every size; the random sparse graph with many parts
     // takes ~7 s at 20 001 vertices, so it stops there
     for (i, &n) in [4097usize, 8193, 16422, 20001, 65548, 70001, 131077, 140003].iter().enumerate() {
-        let k = *ctx.rng.pick(&ks);
+        // the cost grows with the part count (one gain per target part): 64 parts take 12 s at
+        // 70 001 and 36 s at 140 003 vertices, so above 30 000 vertices at most 8 parts
+        let k = if n > 30000 { *ctx.rng.pick(&[2usize, 3, 5, 7, 8]) } else { *ctx.rng.pick(&ks) };
         let op = large_op("arcswap", POOLS[i % 4], n, k, ORDERS[i % 3], 2 * ctx.rng.usize(1 << 11), false, ctx.rng.below(1 << 40));
         run_op(ctx, &op);
     }
@@ -1889,7 +1893,7 @@ fn large_stream(ctx: &mut Ctx) {
     }
     ctx.notes.push(
         "large/corner stream (thorough): the quick stream + 48 Vn/KMeans cases with 4097..140003 elements, 8 FM \
-         (to 140003), 12 ArcSwap (grid to 140003, random sparse to 20001), 5 KL (to 20001: quadratic), 4 cases \
+         (to 24001: quadratic with debug assertions), 12 ArcSwap (grid to 140003, random sparse to 20001), 5 KL (to 20001: quadratic), 4 cases \
          with 1000..4096 parts, 2400 reuse cases"
             .into(),
     );
